@@ -9,7 +9,8 @@ import (
 // VCL is a root of program
 type VCL struct {
 	Statements []Statement
-	IsSnippet  bool // True if parsed as a snippet (statements without subroutine wrapper)
+	IsSnippet  bool     // True if parsed as a snippet (statements without subroutine wrapper)
+	Trailing   Comments // Comments after the last statement, placed in front of the end of file
 }
 
 func (v *VCL) String() string {
